@@ -439,7 +439,7 @@ Proof.
     destruct Ag as [Az Ag]. split; [|split]; simpl.
     + rewrite zlen_app; lia.
     + split; [lia|]. intros j Hj. rewrite Hoth by exact Hj. apply Ag; exact Hj.
-    + rewrite Hn0, splice_prepend by lia. rewrite firstn_firstn. do 2 f_equal. lia.
+    + rewrite Hn0, splice_prepend by lia. rewrite firstn_firstn. do 3 f_equal. lia.
   - unfold store_bytes in SB. rewrite Gd, in_range_true in SB by lia. discriminate.
 Qed.
 
@@ -459,7 +459,7 @@ Proof.
   assert (Lp : zlen pat = n) by (apply pattern_length; exact Hn).
   assert (Gd : get_buf st1 d = Some pat) by apply get_buf_new.
   pose proof (v_sum_nonneg st v W) as Hs. unfold do_extract_front. destruct (n =? 0) eqn:Z0.
-  - apply Z.eqb_eq in Z0. exists v, 0, st1, 0. subst n. repeat split; auto; try lia. apply agree_refl.
+  - apply Z.eqb_eq in Z0. exists v, 0, st1, 0. replace (n - 0) with 0 by lia. repeat split; auto; try lia; try apply agree_refl.
   - pose proof (xf_loop_spec (cb_copy_front d) st1 (fun id => id <> d) (zlen pat) (cfInv st1 d pat) (fun _ _ => False)
                   (cb_copy_front_step st1 d pat) v W1 Q n (st1, 0) [] Hn ltac:(rewrite zlen_nil; lia)) as G.
     assert (I0 : cfInv st1 d pat (st1, 0) []) by (split; [reflexivity| split; [apply agree_refl | exact Gd]]).
@@ -471,7 +471,7 @@ Proof.
       exists v', rem, st2, pos. rewrite F1 in *. simpl app in Gd2.
       assert (Pk : pos = n - rem).
       { rewrite P. apply zlen_firstn. rewrite (zlen_flatT st v W). lia. }
-      repeat split; auto.
+      repeat split; auto; try (destruct Ag; auto; fail).
       * rewrite F2; exact Fv.
       * rewrite Gd2, Pk. reflexivity.
 Qed.
@@ -493,10 +493,10 @@ Proof.
   assert (Gd : get_buf st1 d = Some pat) by apply get_buf_new.
   pose proof (v_sum_nonneg st v W) as Hs. pose proof (zlen_flatT st v W) as LF.
   unfold do_extract_back. destruct (n =? 0) eqn:Z0.
-  - apply Z.eqb_eq in Z0. exists v, 0, st1, n. subst n. repeat split; auto; try lia.
-    + rewrite Z.sub_0_r, firstn_whole by lia. exact F1.
-    + rewrite Z.sub_0_r, skipn_whole by lia. rewrite Gd. destruct pat; [reflexivity|unfold zlen in Lp; simpl in Lp; lia].
-    + apply agree_refl.
+  - apply Z.eqb_eq in Z0. exists v, 0, st1, n. replace (n - 0) with 0 by lia. rewrite Z.sub_0_r.
+    rewrite firstn_whole, skipn_whole by lia.
+    assert (pat = []) as Pn by (destruct pat; [reflexivity|unfold zlen in Lp; simpl in Lp; lia]).
+    repeat split; auto; try lia; try apply agree_refl. rewrite Gd, Pn. reflexivity.
   - assert (Wr : wf_view st1 (rev v)) by (apply Forall_rev; exact W1).
     assert (Qr : Qv (fun id => id <> d) (rev v)) by (apply Forall_rev; exact Q).
     pose proof (xb_loop_spec (cb_copy_back d) st1 (fun id => id <> d) (zlen pat) (cbInv st1 d pat) (fun _ _ => False)
@@ -516,8 +516,273 @@ Proof.
       exists (rev v'), rem, st2, pos. rewrite app_nil_r in *.
       assert (Pk : pos = rem).
       { rewrite P, Lp. rewrite zlen_skipn by lia. lia. }
-      repeat split; auto.
+      repeat split; auto; try (destruct Ag; auto; fail).
       * rewrite F2; exact Fv.
       * rewrite Gd2, Pk. reflexivity.
       * rewrite zlen_rev in *. exact L.
+Qed.
+
+(* ================================================================ extract_front_continuous / extract_back_continuous (view) *)
+Lemma v_xfc_refines st v n v' p : wf_view st v -> 0 <= n -> v_xfc v n = (v', p) ->
+  match p with
+  | None => v' = v
+  | Some (pid, poff) =>
+      n <= v_sum v /\ wf_elem st (mkiov pid poff n) /\ bytesT st (mkiov pid poff n) = firstn (Z.to_nat n) (flatT st v) /\
+      flatT st v' = skipn (Z.to_nat n) (flatT st v) /\ wf_view st v' /\ zlen v' <= zlen v /\
+      exists pre, map iv_id v = pre ++ map iv_id v'
+  end.
+Proof.
+  intros W Hn E. destruct v as [|f r]; simpl in E; [inversion E; reflexivity|].
+  apply wf_view_cons in W. destruct W as [Wf Wr].
+  pose proof (wf_len_nonneg _ _ Wf) as Hl. pose proof (wf_off_nonneg _ _ Wf) as Ho.
+  pose proof (v_sum_nonneg st r Wr) as Hs. pose proof (zlen_bytesT _ _ Wf) as Lb.
+  destruct (iv_len f <? n) eqn:C; [inversion E; reflexivity|]. apply Z.ltb_ge in C.
+  inversion E; subst; clear E. rewrite v_sum_cons, flatT_cons.
+  split; [lia|]. split; [apply wf_take; auto; lia|]. split; [rewrite firstn_app_Z by lia; apply bytesT_take; lia|].
+  destruct (iv_len f - n =? 0) eqn:Z0.
+  - apply Z.eqb_eq in Z0. rewrite skipn_app_Z2 by lia. replace (n - zlen (bytesT st f)) with 0 by lia.
+    repeat split; auto; [rewrite zlen_cons; lia | exists [iv_id f]; reflexivity].
+  - rewrite skipn_app_Z by lia. rewrite flatT_cons. split; [f_equal; apply bytesT_drop; lia|].
+    split; [constructor; auto; apply wf_drop; auto; lia|]. split; [rewrite !zlen_cons; lia | exists []; reflexivity].
+Qed.
+
+Lemma v_xbc_refines st v n v' p : wf_view st v -> 0 <= n -> v_xbc v n = (v', p) ->
+  match p with
+  | None => v' = v
+  | Some (pid, poff) =>
+      n <= v_sum v /\ wf_elem st (mkiov pid poff n) /\
+      bytesT st (mkiov pid poff n) = skipn (Z.to_nat (v_sum v - n)) (flatT st v) /\
+      flatT st v' = firstn (Z.to_nat (v_sum v - n)) (flatT st v) /\ wf_view st v' /\ zlen v' <= zlen v /\
+      exists post, map iv_id v = map iv_id v' ++ post
+  end.
+Proof.
+  intros W Hn E. unfold v_xbc in E. destruct (rev v) as [|b r] eqn:Rv; [inversion E; reflexivity|].
+  assert (LL : v = rev r ++ [b]) by (rewrite <- (rev_involutive v), Rv; reflexivity).
+  destruct (iv_len b <? n) eqn:C; [inversion E; reflexivity|]. apply Z.ltb_ge in C.
+  subst v. apply Forall_app in W. destruct W as [Wr Wb]. inversion Wb as [|? ? Wb1 _]; subst.
+  pose proof (wf_len_nonneg _ _ Wb1) as Hl. pose proof (wf_off_nonneg _ _ Wb1) as Ho.
+  pose proof (zlen_bytesT _ _ Wb1) as Lb. pose proof (zlen_flatT st (rev r) Wr) as LF. pose proof (v_sum_nonneg st _ Wr) as Hs.
+  assert (SV : v_sum (rev r ++ [b]) = v_sum (rev r) + iv_len b).
+  { rewrite <- (zlen_flatT st (rev r ++ [b])) by (apply Forall_app; split; auto).
+    rewrite flatT_app, flatT_single, zlen_app. lia. }
+  rewrite SV, flatT_app, flatT_single.
+  replace (v_sum (rev r) + iv_len b - n) with (zlen (flatT st (rev r)) + (iv_len b - n)) by lia.
+  inversion E; subst; clear E.
+  split; [lia|]. split; [apply wf_mid; auto; lia|].
+  split.
+  { rewrite skipn_app_Z2 by lia. replace (zlen (flatT st (rev r)) + (iv_len b - n) - zlen (flatT st (rev r))) with (iv_len b - n) by lia.
+    pose proof (bytesT_drop st b (iv_len b - n) Ho ltac:(lia)) as P. replace (iv_len b - (iv_len b - n)) with n in P by lia. exact P. }
+  rewrite firstn_app_Z2 by lia. replace (zlen (flatT st (rev r)) + (iv_len b - n) - zlen (flatT st (rev r))) with (iv_len b - n) by lia.
+  destruct (iv_len b - n =? 0) eqn:Z0.
+  - apply Z.eqb_eq in Z0. rewrite Z0. simpl firstn. rewrite app_nil_r. repeat split; auto.
+    + unfold zlen; rewrite app_length; simpl; lia.
+    + exists [iv_id b]. rewrite map_app. reflexivity.
+  - simpl rev. rewrite flatT_app, flatT_single. split; [f_equal; apply bytesT_take; lia|].
+    split; [apply Forall_app; split; auto; constructor; [apply wf_take; auto; lia|constructor]|].
+    split; [unfold zlen; rewrite !app_length; simpl; lia|]. exists []. rewrite app_nil_r, !map_app. reflexivity.
+Qed.
+
+(* ================================================================ which elements survive: buffer ids of the result *)
+Lemma xf_loop_ids {A} (cb : A -> Z -> Z -> Z -> cbres A) v : forall bytes a,
+  match xf_loop cb v bytes a with
+  | XOob => True
+  | XNeg v' _ => exists pre, map iv_id v = pre ++ map iv_id v'
+  | XDone v' _ _ => exists pre, map iv_id v = pre ++ map iv_id v'
+  end.
+Proof.
+  induction v as [|e v IH]; intros bytes a; simpl; [exists []; reflexivity|].
+  destruct (bytes <=? iv_len e).
+  - destruct (cb a (iv_id e) (iv_off e) bytes); [|exists []; reflexivity|exact I].
+    destruct (iv_len e - bytes =? 0); [exists [iv_id e]; reflexivity | exists []; reflexivity].
+  - destruct (cb a (iv_id e) (iv_off e) (iv_len e)) as [a'|a'|]; [|exists []; reflexivity|exact I].
+    specialize (IH (bytes - iv_len e) a'). destruct (xf_loop cb v (bytes - iv_len e) a'); [exact I| |];
+      destruct IH as [pre E]; exists (iv_id e :: pre); simpl; rewrite E; reflexivity.
+Qed.
+Lemma xb_loop_ids {A} (cb : A -> Z -> Z -> Z -> cbres A) v : forall bytes a,
+  match xb_loop cb v bytes a with
+  | XOob => True
+  | XNeg v' _ => exists pre, map iv_id v = pre ++ map iv_id v'
+  | XDone v' _ _ => exists pre, map iv_id v = pre ++ map iv_id v'
+  end.
+Proof.
+  induction v as [|e v IH]; intros bytes a; simpl; [exists []; reflexivity|].
+  destruct (bytes <=? iv_len e).
+  - destruct (cb a (iv_id e) (iv_off e + iv_len e - bytes) bytes); [|exists []; reflexivity|exact I].
+    destruct (iv_len e - bytes =? 0); [exists [iv_id e]; reflexivity | exists []; reflexivity].
+  - destruct (cb a (iv_id e) (iv_off e) (iv_len e)) as [a'|a'|]; [|exists []; reflexivity|exact I].
+    specialize (IH (bytes - iv_len e) a'). destruct (xb_loop cb v (bytes - iv_len e) a'); [exact I| |];
+      destruct IH as [pre E]; exists (iv_id e :: pre); simpl; rewrite E; reflexivity.
+Qed.
+Lemma shrink_loop_ids v : forall size v' h s, shrink_loop v size = (v', h, s) -> exists post, map iv_id v = map iv_id v' ++ post.
+Proof.
+  induction v as [|e v IH]; intros size v' h s E; simpl in E; [inversion E; exists []; reflexivity|].
+  destruct (size <=? iv_len e); [inversion E; subst; exists (map iv_id v); reflexivity|].
+  destruct (shrink_loop v (size - iv_len e)) as [[v1 h1] s1] eqn:R. inversion E; subst.
+  destruct (IH _ _ _ _ R) as [post P]. exists post. simpl. rewrite P. reflexivity.
+Qed.
+
+Lemma NoDup_app_l {A} (a b : list A) : NoDup (a ++ b) -> NoDup a.
+Proof.
+  induction a as [|x a IH]; intros H; [constructor|]. inversion H as [|? ? Hn Hd]; subst. constructor; [|apply IH; exact Hd].
+  intros Hi; apply Hn; apply in_or_app; left; exact Hi.
+Qed.
+Lemma NoDup_app_r {A} (a b : list A) : NoDup (a ++ b) -> NoDup b.
+Proof. induction a as [|x a IH]; intros H; [exact H|]. inversion H; subst. apply IH; assumption. Qed.
+Definition ids_ok (v : view) : Prop := NoDup (map iv_id v).
+Lemma ids_ok_suffix v v' pre : ids_ok v -> map iv_id v = pre ++ map iv_id v' -> ids_ok v'.
+Proof. unfold ids_ok; intros H E; rewrite E in H. eapply NoDup_app_r; eauto. Qed.
+Lemma ids_ok_prefix v v' post : ids_ok v -> map iv_id v = map iv_id v' ++ post -> ids_ok v'.
+Proof. unfold ids_ok; intros H E; rewrite E in H. eapply NoDup_app_l; eauto. Qed.
+Lemma ids_ok_rev v : ids_ok v -> ids_ok (rev v).
+Proof. unfold ids_ok; rewrite map_rev; apply NoDup_rev. Qed.
+
+(* ================================================================ shrink_less_than *)
+Lemma slt_loop_spec st v : wf_view st v -> forall size v' x, 0 < size -> slt_loop v size = Some (v', x) ->
+  wf_view st v' /\ (exists post, v = v' ++ post) /\ 0 <= x /\ v_sum v' = size + x /\ v' <> [] /\
+  v_sum (removelast v') < size.
+Proof.
+  induction 1 as [|e v He Hv IH]; intros size v' x Hs E; simpl in E; [discriminate|].
+  pose proof (wf_len_nonneg _ _ He) as Hl.
+  destruct (size <=? iv_len e) eqn:C.
+  - apply Z.leb_le in C. inversion E; subst. split; [constructor; auto; constructor|]. split; [exists v; reflexivity|].
+    rewrite v_sum_cons. unfold v_sum; simpl. repeat split; try lia. discriminate.
+  - apply Z.leb_gt in C. destruct (slt_loop v (size - iv_len e)) as [[v1 x1]|] eqn:R; [|discriminate]. inversion E; subst.
+    assert (P : 0 < size - iv_len e) by lia.
+    destruct (IH _ _ _ P R) as (W1 & [post Pp] & Hx & S1 & NE & RL).
+    split; [constructor; auto|]. split; [exists post; rewrite Pp; reflexivity|]. rewrite v_sum_cons.
+    split; [lia|]. split; [lia|]. split; [discriminate|].
+    destruct v1 as [|y v1]; [contradiction|]. change (removelast (e :: y :: v1)) with (e :: removelast (y :: v1)).
+    rewrite v_sum_cons. lia.
+Qed.
+Lemma slt_loop_none st v : wf_view st v -> forall size, 0 < size -> slt_loop v size = None -> v_sum v < size.
+Proof.
+  induction 1 as [|e v He Hv IH]; intros size Hs E; simpl in E; [unfold v_sum; simpl; lia|].
+  pose proof (wf_len_nonneg _ _ He) as Hl. rewrite v_sum_cons.
+  destruct (size <=? iv_len e) eqn:C; [discriminate|]. apply Z.leb_gt in C.
+  destruct (slt_loop v (size - iv_len e)) as [[v1 x1]|] eqn:R; [discriminate|].
+  assert (P : 0 < size - iv_len e) by lia. pose proof (IH _ P R). lia.
+Qed.
+(* shrink_less_than(size): the vector is cut after the element in which byte `size` falls; the
+   return value is the number of bytes of that element beyond `size` (size = 0: everything is
+   dropped and the length of the first element is returned). *)
+Lemma v_shrink_less_than_refines st v size v' r : wf_view st v -> 0 <= size -> v_shrink_less_than v size = (v', r) ->
+  wf_view st v' /\ (exists post, v = v' ++ post) /\
+  (size = 0 -> v' = [] /\ r = match v with [] => 0 | e :: _ => iv_len e end) /\
+  (0 < size -> size <= v_sum v -> v_sum v' = size + r /\ 0 <= r /\ v_sum (removelast v') < size) /\
+  (v_sum v < size -> v' = v /\ r = 0).
+Proof.
+  intros W Hs E. unfold v_shrink_less_than in E. destruct (size =? 0) eqn:Z0.
+  - apply Z.eqb_eq in Z0. subst size. pose proof (v_sum_nonneg st v W).
+    destruct v as [|e v0]; inversion E; subst; (split; [constructor|]); (split; [eexists; reflexivity|]);
+      repeat split; auto; try lia.
+  - apply Z.eqb_neq in Z0. destruct (slt_loop v size) as [[v1 x]|] eqn:R; inversion E; subst.
+    + assert (P : 0 < size) by lia. destruct (slt_loop_spec st v W _ _ _ P R) as (W1 & Pp & Hx & S1 & NE & RL).
+      split; [exact W1|]. split; [exact Pp|]. split; [lia|]. split; [auto|].
+      intros L. destruct Pp as [post Pp]. exfalso. subst v.
+      apply Forall_app in W. destruct W as [_ Wp]. pose proof (v_sum_nonneg st post Wp).
+      assert (v_sum (v' ++ post) = v_sum v' + v_sum post).
+      { clear. induction v' as [|a l IH]; [unfold v_sum at 2; simpl; lia|]. simpl app. rewrite !v_sum_cons, IH. lia. }
+      lia.
+    + assert (P : 0 < size) by lia. pose proof (slt_loop_none st v' W _ P R).
+      split; [exact W|]. split; [exists []; rewrite app_nil_r; reflexivity|]. split; [lia|]. split; [lia|]. auto.
+Qed.
+
+(* ================================================================ slice *)
+Lemma skipn_skipn_Z {A} (a b : Z) (l : list A) : 0 <= a -> 0 <= b -> skipn (Z.to_nat a) (skipn (Z.to_nat b) l) = skipn (Z.to_nat (b + a)) l.
+Proof. intros; rewrite skipn_skipn'. f_equal; lia. Qed.
+Lemma firstn_min_len {A} (n : Z) (l : list A) : 0 <= n -> firstn (Z.to_nat (Z.min n (zlen l))) l = firstn (Z.to_nat n) l.
+Proof.
+  intros Hn. destruct (Z_le_gt_dec n (zlen l)); [rewrite Z.min_l by lia; reflexivity|].
+  rewrite Z.min_r by lia. rewrite !firstn_whole by lia. reflexivity.
+Qed.
+
+Lemma slice_skip_spec st v : wf_view st v -> forall pos offset it pos', pos <= offset -> slice_skip v pos offset = (it, pos') ->
+  pos <= pos' <= offset /\ wf_view st it /\ flatT st it = skipn (Z.to_nat (pos' - pos)) (flatT st v) /\
+  pos' - pos <= v_sum v /\ zlen it <= zlen v /\
+  match it with [] => pos' - pos = v_sum v | e :: _ => offset < pos' + iv_len e end.
+Proof.
+  induction 1 as [|e v He Hv IH]; intros pos offset it pos' Hp E; simpl in E.
+  - inversion E; subst. rewrite Z.sub_diag. unfold v_sum; simpl. repeat split; auto; try lia. constructor.
+  - pose proof (wf_len_nonneg _ _ He) as Hl. pose proof (v_sum_nonneg st v Hv) as Hs. pose proof (zlen_bytesT _ _ He) as Lb.
+    rewrite v_sum_cons, zlen_cons. destruct (offset <? pos + iv_len e) eqn:C.
+    + apply Z.ltb_lt in C. inversion E; subst. rewrite Z.sub_diag. repeat split; auto; try lia.
+      * constructor; auto.
+      * rewrite zlen_cons; lia.
+    + apply Z.ltb_ge in C. destruct (IH _ _ _ _ C E) as (P1 & W1 & F1 & S1 & L1 & M1).
+      split; [lia|]. split; [exact W1|]. split.
+      * rewrite flatT_cons, skipn_app_Z2 by lia. rewrite F1. f_equal. f_equal. lia.
+      * split; [lia|]. split; [lia|]. destruct it; [lia|exact M1].
+Qed.
+
+Lemma slice_rest_spec st v : wf_view st v -> forall count room o ret, 0 < count -> slice_rest v count room = (o, ret) ->
+  wf_view st o /\ ret = zlen (flatT st o) /\ flatT st o = firstn (Z.to_nat ret) (flatT st v) /\ 0 <= ret <= count /\
+  (zlen v <= room -> ret = Z.min count (v_sum v)).
+Proof.
+  induction 1 as [|e v He Hv IH]; intros count room o ret Hc E; simpl in E.
+  - inversion E; subst. unfold v_sum; simpl. repeat split; auto; try lia. constructor.
+  - pose proof (wf_len_nonneg _ _ He) as Hl. pose proof (v_sum_nonneg st v Hv) as Hs. pose proof (zlen_bytesT _ _ He) as Lb.
+    pose proof (zlen_nonneg v) as Hz. rewrite v_sum_cons, zlen_cons, flatT_cons.
+    destruct (room <=? 0) eqn:R0.
+    + apply Z.leb_le in R0. inversion E; subst. repeat split; auto; try lia. constructor.
+    + apply Z.leb_gt in R0. destruct (count <=? iv_len e) eqn:C.
+      * apply Z.leb_le in C. inversion E; subst. rewrite flatT_single, bytesT_take by lia.
+        split; [constructor; [apply wf_take; auto; lia|constructor]|].
+        split; [rewrite zlen_firstn; lia|]. split; [rewrite firstn_app_Z by lia; reflexivity|]. split; lia.
+      * apply Z.leb_gt in C. destruct (slice_rest v (count - iv_len e) (room - 1)) as [o1 r1] eqn:R. inversion E; subst.
+        assert (P : 0 < count - iv_len e) by lia. destruct (IH _ _ _ _ P R) as (W1 & Z1 & F1 & B1 & M1).
+        split; [constructor; auto|]. split; [rewrite flatT_cons, zlen_app; lia|].
+        split; [rewrite flatT_cons, firstn_app_Z2 by lia; rewrite Lb, F1; do 3 f_equal; lia|].
+        split; [lia|]. intros L. rewrite M1 by lia. lia.
+Qed.
+
+(* slice(count, offset, out): out denotes a prefix of bytes [offset, offset+count); all of them when out
+   has a slot for every element; the vector itself is untouched (the function takes a const view) *)
+Lemma v_slice_refines st v count offset N : wf_view st v -> 0 <= count -> 0 <= offset ->
+  let want := firstn (Z.to_nat count) (skipn (Z.to_nat offset) (flatT st v)) in
+  match v_slice v count offset N with
+  | (r, None) => N = 0 /\ r = -1
+  | (r, Some a) => N <> 0 /\ wf_view st a /\ r = zlen (flatT st a) /\ flatT st a = firstn (Z.to_nat r) want /\
+                   (zlen v <= N -> flatT st a = want)
+  end.
+Proof.
+  intros W Hc Ho want. unfold v_slice. destruct (N =? 0) eqn:N0; [apply Z.eqb_eq in N0; auto|]. apply Z.eqb_neq in N0.
+  destruct (count =? 0) eqn:C0.
+  { apply Z.eqb_eq in C0. subst count. unfold want. simpl. repeat split; auto. constructor. }
+  apply Z.eqb_neq in C0.
+  destruct (slice_skip v 0 offset) as [it pos] eqn:SK.
+  destruct (slice_skip_spec st v W 0 offset it pos Ho SK) as (P1 & W1 & F1 & S1 & L1 & M1).
+  rewrite Z.sub_0_r in *. pose proof (zlen_flatT st v W) as LF.
+  destruct it as [|e r0].
+  - assert (want = []) as ->. { unfold want. rewrite skipn_whole by lia. apply firstn_nil. }
+    repeat split; auto; try constructor.
+  - apply wf_view_cons in W1. destruct W1 as [We Wr].
+    pose proof (wf_len_nonneg _ _ We) as Hl. pose proof (wf_off_nonneg _ _ We) as Hoff. pose proof (zlen_bytesT _ _ We) as Lb.
+    set (dlt := offset - pos) in *.
+    assert (Wf : wf_elem st (mkiov (iv_id e) (iv_off e + dlt) (iv_len e - dlt))) by (apply wf_drop; auto; unfold dlt; lia).
+    assert (Bf : bytesT st (mkiov (iv_id e) (iv_off e + dlt) (iv_len e - dlt)) = skipn (Z.to_nat dlt) (bytesT st e))
+      by (apply bytesT_drop; unfold dlt; lia).
+    assert (SKP : skipn (Z.to_nat offset) (flatT st v) = skipn (Z.to_nat dlt) (bytesT st e) ++ flatT st r0).
+    { replace offset with (pos + dlt) by (unfold dlt; lia). rewrite <- skipn_skipn_Z by (unfold dlt; lia).
+      rewrite <- F1, flatT_cons. apply skipn_app_Z. unfold dlt; lia. }
+    set (Bfirst := skipn (Z.to_nat dlt) (bytesT st e)) in *.
+    assert (Lf : zlen Bfirst = iv_len e - dlt) by (unfold Bfirst; rewrite zlen_skipn; unfold dlt; lia).
+    cbn [iv_len iv_id iv_off]. unfold want. rewrite SKP.
+    destruct (count <=? iv_len e - dlt) eqn:C.
+    + apply Z.leb_le in C. split; [exact N0|]. rewrite flatT_single.
+      assert (Bt : bytesT st (mkiov (iv_id e) (iv_off e + dlt) count) = firstn (Z.to_nat count) Bfirst).
+      { rewrite <- Bf. apply (bytesT_take st (mkiov (iv_id e) (iv_off e + dlt) (iv_len e - dlt))). simpl. lia. }
+      rewrite Bt. rewrite (firstn_app_Z count) by lia.
+      split; [constructor; [|constructor]; apply (wf_take st _ count Wf); simpl; lia|].
+      split; [rewrite zlen_firstn; lia|]. split; [rewrite firstn_firstn; f_equal; lia|reflexivity].
+    + apply Z.leb_gt in C. destruct (slice_rest r0 (count - (iv_len e - dlt)) (N - 1)) as [o ret] eqn:R.
+      assert (P : 0 < count - (iv_len e - dlt)) by lia.
+      destruct (slice_rest_spec st r0 Wr _ _ _ _ P R) as (Wo & Zo & Fo & Bo & Mo).
+      split; [exact N0|]. split; [constructor; auto|]. rewrite flatT_cons, Bf. fold Bfirst.
+      split; [rewrite zlen_app; lia|].
+      split.
+      * rewrite firstn_firstn. replace (Init.Nat.min (Z.to_nat (iv_len e - dlt + ret)) (Z.to_nat count)) with (Z.to_nat (iv_len e - dlt + ret)) by lia.
+        rewrite firstn_app_Z2 by lia. rewrite Lf, Fo. do 3 f_equal. lia.
+      * intros LN. rewrite firstn_app_Z2 by lia. rewrite Lf, Fo. f_equal.
+        rewrite Mo by (rewrite zlen_cons in L1; lia).
+        rewrite <- (zlen_flatT st r0 Wr). apply firstn_min_len. lia.
 Qed.
